@@ -36,6 +36,9 @@ int mpq_ILLraw_set_bounds_name(mpq_rawlpdata *lp, const char *name, int *skip) {
 int mpq_ILLraw_set_ranges_name(mpq_rawlpdata *lp, const char *name, int *skip) { return set_name(skip); }
 const char *mpq_ILLraw_rowname(mpq_rawlpdata *lp, int i) { return "r"; }
 const char *mpq_ILLraw_colname(mpq_rawlpdata *lp, int i) { return "c"; }
+static int g_addrow_calls, g_addrow_sense, g_addrow_rhs0;
+int mpq_ILLraw_add_row(mpq_rawlpdata *lp, const char *name, int sense, const mpq_t rhs) { g_addrow_calls++; g_addrow_sense = sense; g_addrow_rhs0 = NUMV(rhs) == 0; return nondet_bool(); }
+int __CPROVER_file_local_mps_mpq_c_add_row(mpq_ILLread_mps_state *state, mpq_rawlpdata *lp);
 int mpq_ILLraw_add_col(mpq_rawlpdata *lp, const char *name, int intmarker) { if (nondet_bool()) return 1; lp->ncols = 2; return 0; }
 int mpq_ILLraw_add_col_coef(mpq_rawlpdata *lp, int colind, int rowind, mpq_t coef) { return nondet_bool(); }
 int mpq_ILLraw_add_ranges_coef(mpq_rawlpdata *lp, int rowind, mpq_t coef) { return nondet_bool(); }
@@ -61,6 +64,16 @@ void harness(void)
 	live0 = qsv_gmp_live;
 #if defined(FN_col)
 	rv = __CPROVER_file_local_mps_mpq_c_mps_read_col_line(st, lp);
+#elif defined(FN_row)
+	{	/* ROWS record: a one-letter sense out of N L G E, then a new row name; the row is created with that sense and right-hand side 0 */
+		char c0 = nondet_char(), c1 = nondet_char(); int ok_sense;
+		ASSUME(c0 != 0); st->field[0] = c0; st->field[1] = c1; st->field[2] = 0;
+		ok_sense = c1 == 0 && (c0 == 'L' || c0 == 'G' || c0 == 'E' || c0 == 'N');
+		rv = __CPROVER_file_local_mps_mpq_c_add_row(st, lp);
+		ASSERT(ok_sense || (rv != 0 && g_addrow_calls == 0), "C11: an unknown row sense is an error and creates no row");
+		if (g_addrow_calls) ASSERT(g_addrow_calls == 1 && ok_sense && g_addrow_sense == c0 && g_addrow_rhs0, "C10: the row is created once, with the sense letter of the record and right-hand side 0");
+		if (rv == 0) ASSERT(g_addrow_calls == 1, "C10: an accepted ROWS record created its row");
+	}
 #elif defined(FN_rhs)
 	rv = __CPROVER_file_local_mps_mpq_c_add_rhs(st, lp);
 #elif defined(FN_ranges)
@@ -69,7 +82,7 @@ void harness(void)
 	k = nondet_int(); ASSUME(0 <= k && k <= 9); st->field[0] = bt[k][0]; st->field[1] = bt[k][1]; st->field[2] = 0;
 	rv = __CPROVER_file_local_mps_mpq_c_add_bounds(st, lp);
 #else
-#error "select FN_col, FN_rhs, FN_ranges or FN_bounds"
+#error "select FN_col, FN_row, FN_rhs, FN_ranges or FN_bounds"
 #endif
 	ASSERT(qsv_gmp_live == live0, "C18: the line handler leaves no temporary number behind, whether the record is accepted or rejected at any field");
 	COVER_MUST(rv != 0 && errors > 0, "rejected_record");
